@@ -91,6 +91,25 @@ pub trait World: Sized {
     fn explain_last(&self) -> String {
         String::new()
     }
+    /// findings of the engine's bookkeeping audit (hook H1) in the current state; worlds other
+    /// than the graph world expose it here so that C11 can be judged on their histories too
+    fn audit(&self) -> Vec<String> {
+        vec![]
+    }
+}
+
+/// C11 verdicts from audit findings: only rules restating a clause of the property decide
+/// (prefix `R`), the others are diagnostics (DESIGN Appendix B).
+pub fn audit_violations(findings: Vec<String>) -> Vec<Violation> {
+    findings
+        .into_iter()
+        .filter(|f| f.starts_with('R'))
+        .map(|f| {
+            let rule: String = f.split(':').next().unwrap_or("").to_string();
+            let pat: String = f.chars().filter(|c| !c.is_ascii_digit()).take(60).collect();
+            Violation::new("C11", "C11.audit", format!("{rule}:{pat}"), f)
+        })
+        .collect()
 }
 
 // ---------------------------------------------------------------------------------------
